@@ -1,5 +1,7 @@
 import KM.Lemmas.LoginDest
 import KM.Gen.Redirects
+import KM.Lemmas.GoLoginDest
+import KM.Gen.GoLoginDest
 /-! # C17 — post-login redirects never leave the keymaster origin
 
 Property theorems only.  `filter` mirrors `getLoginDestination`, `location` mirrors what
@@ -246,5 +248,48 @@ theorem c17_filter_source :
     KM.Gen.getLoginDestinationSrc = "{ loginDestination := profilePath if r.FormValue(\"login_destination\") != \"\" { inboundLoginDestination := r.Form.Get(\"login_destination\") if isSafeLoginDestination(inboundLoginDestination) { loginDestination = inboundLoginDestination } } return loginDestination }".toList ∧
     KM.Gen.isSafeLoginDestinationSrc = "{ if !strings.HasPrefix(destination, \"/\") || strings.HasPrefix(destination, \"//\") { return false } for _, c := range destination { if c == '\\\\' || unicode.IsControl(c) { return false } } return true }".toList := by
   exact ⟨rfl, rfl⟩
+
+end KM.LoginDest
+
+/-! ### the filter as TRANSLATED from the current source (go2lean, `KM/Gen/GoLoginDest.lean`)
+
+`isSafeLoginDestination` and `getLoginDestination` are translated statement by statement from
+/repo's working tree on every run; the theorems below are about those translations, so the
+property is re-proved against what the code says now (not against a transcription of it). -/
+namespace KM.LoginDest
+open KM.Go
+
+/-- the translated `isSafeLoginDestination` is the model's `safeDest`, for every string -/
+theorem c17_go_safe_eq (d : List Char) : KM.Gen.GoLoginDest.isSafeLoginDestination d = safeDest d := by
+  unfold KM.Gen.GoLoginDest.isSafeLoginDestination
+  rw [forRange_any (fun c => c == '\\' || unicode_IsControl c) false _ (by intro x s; cases s; rfl)]
+  rw [safeDest_flat]
+  have e : (fun c => c == '\\' || unicode_IsControl c) = badChar := by funext c; rfl
+  have e1 : "/".toList = ['/'] := by decide
+  have e2 : "//".toList = ['/', '/'] := by decide
+  rw [e, e1, e2]
+  cases strings_HasPrefix d ['/'] <;> cases strings_HasPrefix d ['/', '/'] <;> cases d.any badChar <;> rfl
+
+/-- the translated `getLoginDestination` (as a function of the `login_destination` form value) is
+the model's `filter` -/
+theorem c17_go_dest_eq (v : List Char) : KM.Gen.GoLoginDest.getLoginDestination v = filter v := by
+  unfold KM.Gen.GoLoginDest.getLoginDestination filter
+  dsimp -proj -iota only
+  rw [c17_go_safe_eq]
+  have e : "/profile/".toList = profilePath := rfl
+  rw [e]
+  by_cases h1 : v = [] <;> by_cases h2 : safeDest v = true <;> simp [h1, h2]
+
+/-- **End to end, on the translated source**: whatever the client sends as `login_destination`,
+the value `getLoginDestination` (as the code reads now) hands to `http.Redirect` produces a
+`Location` a browser resolves inside the keymaster origin. -/
+theorem c17_go_end_to_end (v : List Char) (parseOK : Bool) :
+    browserStart (location parseOK (KM.Gen.GoLoginDest.getLoginDestination v)) = .pathAbsolute := by
+  rw [c17_go_dest_eq]; exact c17_end_to_end v parseOK
+
+/-- non-vacuity: the translated function, run on concrete inputs -/
+example : KM.Gen.GoLoginDest.getLoginDestination "/idp/oauth2/authorize?x=1".toList = "/idp/oauth2/authorize?x=1".toList ∧
+    KM.Gen.GoLoginDest.getLoginDestination "/\\evil.example".toList = "/profile/".toList ∧
+    KM.Gen.GoLoginDest.getLoginDestination "//evil.example".toList = "/profile/".toList := by decide
 
 end KM.LoginDest
